@@ -23,3 +23,77 @@ package bt
 //@   loop 0 invariant (forall ((k Int)) (=> (and (<= i k) (<= k j)) (= (at tmp k) (old (at a k)))))
 //@   loop 0 invariant (forall ((k Int)) (=> (and (<= 0 k) (< k (len a))) (= (at a k) (old (at a k)))))
 //@   loop 0 decreases (- j i)
+
+// ---- decoding entry points (C09) ----
+
+//@ func bt.NewVarIntFromBytes
+//@   requires (>= (len bb) 1)
+//@   requires (=> (= (at bb 0) 255) (>= (len bb) 9)) (=> (= (at bb 0) 254) (>= (len bb) 5)) (=> (= (at bb 0) 253) (>= (len bb) 3))
+
+//@ func bt.NewTxFromString
+//@   ensures[fromstring_nonnil] (=> (= err nil) (not (nil? result)))
+//@ func bt.NewTxFromBytes
+//@   ensures[frombytes_nonnil] (=> (= err nil) (not (nil? result)))
+
+//@ func bt.(*nodeOutputJSON).toOutput
+//@   opt nilrecv ok
+//@   ensures[tooutput_nonnil] (=> (= err nil) (not (nil? result)))
+//@ func bt.(*nodeInputJSON).toInput
+//@   opt nilrecv ok
+//@   ensures[toinput_nonnil] (=> (= err nil) (not (nil? result)))
+
+// wrappers are only ever built by NodeJSON(), around a non-nil object
+//@ func bt.(*nodeTxWrapper).UnmarshalJSON
+//@   requires (not (nil? (. n Tx)))
+//@ func bt.(*nodeOutputWrapper).UnmarshalJSON
+//@   requires (not (nil? (. n Output)))
+//@ func bt.(*nodeUTXOWrapper).UnmarshalJSON
+//@   requires (not (nil? (. n UTXO)))
+
+// bytes reported as read never exceed what was taken from the reader; allocations are chunk-bounded
+//@ func bt.(*VarInt).ReadFrom
+//@   opt alloc-chunk 65536
+//@   ensures[C09.consumed] (and (>= r0 0) (<= r0 (- (consumed r) (old (consumed r)))))
+//@   ensures[C09.within_limit] (=> (>= (limit r) 0) (<= (consumed r) (limit r)))
+//@ func bt.(*Input).readFrom
+//@   opt alloc-chunk 65536
+//@   ensures[C09.consumed] (and (>= r0 0) (<= r0 (- (consumed r) (old (consumed r)))))
+//@   ensures[C09.within_limit] (=> (>= (limit r) 0) (<= (consumed r) (limit r)))
+//@ func bt.(*Input).ReadFrom
+//@   ensures[C09.consumed] (and (>= r0 0) (<= r0 (- (consumed r) (old (consumed r)))))
+//@   ensures[C09.within_limit] (=> (>= (limit r) 0) (<= (consumed r) (limit r)))
+//@ func bt.(*Input).ReadFromExtended
+//@   ensures[C09.consumed] (and (>= r0 0) (<= r0 (- (consumed r) (old (consumed r)))))
+//@   ensures[C09.within_limit] (=> (>= (limit r) 0) (<= (consumed r) (limit r)))
+//@ func bt.(*Output).ReadFrom
+//@   opt alloc-chunk 65536
+//@   ensures[C09.consumed] (and (>= r0 0) (<= r0 (- (consumed r) (old (consumed r)))))
+//@   ensures[C09.within_limit] (=> (>= (limit r) 0) (<= (consumed r) (limit r)))
+//@ func bt.(*Tx).ReadFrom
+//@   opt alloc-chunk 65536
+//@   ensures[C09.consumed] (and (>= r0 0) (<= r0 (- (consumed r) (old (consumed r)))))
+//@   ensures[C09.within_limit] (=> (>= (limit r) 0) (<= (consumed r) (limit r)))
+//@   loop 0 invariant (and (>= bytesRead 0) (<= bytesRead (- (consumed r) (old (consumed r)))))
+//@   loop 1 invariant (and (>= bytesRead 0) (<= bytesRead (- (consumed r) (old (consumed r)))))
+//@ func bt.(*Txs).ReadFrom
+//@   opt alloc-chunk 65536
+//@   ensures[C09.consumed] (and (>= r0 0) (<= r0 (- (consumed r) (old (consumed r)))))
+//@   ensures[C09.within_limit] (=> (>= (limit r) 0) (<= (consumed r) (limit r)))
+//@   loop 0 invariant (and (>= bytesRead 0) (<= bytesRead (- (consumed r) (old (consumed r)))))
+//@   loop 0 invariant (=> (>= (limit r) 0) (<= (consumed r) (limit r)))
+//@ func bt.NewTxFromStream
+//@   ensures[fromstream_nonnil] (not (nil? result))
+//@   ensures[C09.used_le_len] (and (>= r1 0) (<= r1 (len b)))
+
+//@ func bt.readBytesN
+//@   requires (=> (>= (limit r) 0) (<= (consumed r) (limit r)))
+//@   opt alloc-chunk 65536
+//@   ensures[C09.consumed] (and (>= r1 0) (<= r1 (- (consumed r) (old (consumed r)))))
+//@   ensures[C09.within_limit] (=> (>= (limit r) 0) (<= (consumed r) (limit r)))
+//@   loop 0 invariant (and (<= 0 total) (= total (len buf)) (<= total n) (<= total (- (consumed r) (old (consumed r)))))
+//@   loop 0 invariant (=> (>= (limit r) 0) (<= (consumed r) (limit r)))
+//@   loop 0 decreases (- n total)
+
+//@ func bt.NewTx
+//@   fresh result
+//@   ensures[newtx_nonnil] (not (nil? result))
